@@ -85,7 +85,9 @@ def cbmc(gb, func, backends=('minisat',), unwind=None, timeout=60, extra=(), mem
     env = dict(os.environ); env['PATH'] = os.path.join(VERIF, 'stubs', 'cvc5shim') + ':' + env['PATH']
     procs = {}
     for b in backends:
-        cmd = ['cbmc', gb, '--function', func, '--trace'] + [c for c in BASE_CHECKS if not (partial_loops and c == '--unwinding-assertions')] + BACKENDS[b] + list(extra)
+        base = [c for c in BASE_CHECKS if not (partial_loops and c == '--unwinding-assertions')]
+        if '--object-bits' in extra: base = base[:base.index('--object-bits')] + base[base.index('--object-bits') + 2:]
+        cmd = ['cbmc', gb, '--function', func, '--trace'] + base + BACKENDS[b] + list(extra)
         if unwind is not None: cmd += ['--unwind', str(unwind)]
         if unwindset: cmd += ['--unwindset', unwindset]
         if object_bits: cmd += ['--object-bits', str(object_bits)]
